@@ -206,6 +206,14 @@ def iter_zones(ctx, tz, relativedelta, rng, tier, with_real=True, n_posix=None, 
                 continue
             yield 'tzlocal(TZ=%s)' % s, 'tzlocal', z, model, (lambda old=old: set_process_tz(old))
     if want('tzical'):
+        # a zone with a single observance (one STANDARD component): a fixed offset whatever the instant
+        for off, name, extra in ((19800, 'IST', ''), (-12600, 'NST', 'RRULE:FREQ=YEARLY;BYMONTH=1;BYMONTHDAY=1\r\n'), (3600, 'CET', 'RDATE:19800101T000000\r\n')):
+            text = ('BEGIN:VTIMEZONE\r\nTZID:Single\r\nBEGIN:STANDARD\r\nDTSTART:19700101T000000\r\n%sTZOFFSETFROM:%s\r\nTZOFFSETTO:%s\r\nTZNAME:%s\r\n'
+                    'END:STANDARD\r\nEND:VTIMEZONE\r\n' % (extra, tzzoo.fmt_ical_offset(off), tzzoo.fmt_ical_offset(off), name))
+            try:
+                yield 'tzical(single %s)' % name, 'tzical-fixed', tz.tzical(io.StringIO(text)).get(), FixedModel(off, name), nothing
+            except Exception as e:
+                ctx.violation('tzical-rejected', {'zone': 'single ' + name}, '%s: %s' % (type(e).__name__, e))
         # TZNAME is optional per component: a component without it has no abbreviation (and must not inherit one)
         for nameless in ('EST', 'EDT'):
             for order in ('SD', 'DS'):
